@@ -134,7 +134,10 @@ func (j *Joe) Subscribe(ctx context.Context, sub Subscription) error {
 	case err := <-done:
 		return err
 	case j.unsubscription <- done:
-		return nil
+		// Joe may have already failed this subscriber. Wait for done to be
+		// closed, so the subscriber's own error is not lost.
+		err := <-done
+		return err
 	}
 }
 
@@ -196,6 +199,11 @@ func (j *Joe) Shutdown(ctx context.Context) (err error) {
 }
 
 func (j *Joe) removeSubscriber(sub subscriber) {
+	if _, ok := j.subscribers[sub]; !ok {
+		// Already removed (and closed) because it failed: an unsubscription
+		// request for it may still arrive afterwards.
+		return
+	}
 	delete(j.subscribers, sub)
 	close(sub)
 }
